@@ -138,6 +138,69 @@ def run(ctx):
                     ctx.bad(R_adv, "wdl-write|insert|%s" % hirq.render(hirq.strip(i_["recv"])), "%s:%d" % (ww.file, i_["ln"]), "chunk registered under %s with no offset advance under the same conditions" % [c_[:50] for _, c_ in sg],
                             "later tile offsets are short by this chunk's size")
 
+    # a parser does not consult a collection of the object under construction before the step that fills it
+    R_pop = ctx.rule("C18.no-read-before-populated", "in WdlParser::parse / WdtReader::read no collection field of the file object is queried (is_empty/len/get/iter…) before the first statement or helper that fills it", floor=2)
+    MUTM = ("insert", "push", "extend", "append", "push_back", "entry", "resize", "clear", "remove", "retain")
+    READM = ("is_empty", "len", "get", "iter", "contains_key", "contains", "keys", "values", "first", "last", "any")
+    for crate_, fname in ((wdl, "wow_wdl::parser::WdlParser::parse"), (wdt, "wow_wdt::WdtReader::read")):
+        f = next((g for g in crate_.fn_list if g.hir and g.kind != "Closure" and re.sub(r"::<[^>]*>", "", norm(g.path)) == fname), None)
+        if f is None:
+            ctx.bad(R_pop, "%s|missing" % fname, "-", "function not found", "anchor gone")
+            continue
+        ctx.saw_fn(f)
+        local_fns = {g.path: g for g in crate_.fn_list if g.hir and g.kind != "Closure"}
+        body = f.hir["body"]
+        order = {id(n): i for i, n in enumerate(hirq.walk(body))}
+
+        def helper_mutated(g, pname):
+            out = set()
+            for x in hirq.walk(g.hir["body"]):
+                if x.get("k") == "mcall" and x["m"] in MUTM:
+                    r_ = hirq.strip(x["recv"])
+                    if r_.get("k") == "field" and hirq.render(hirq.strip(r_["e"])) == pname:
+                        out.add(r_["name"])
+                if x.get("k") == "assign":
+                    l_ = hirq.strip(x["l"])
+                    if l_.get("k") == "field" and hirq.render(hirq.strip(l_["e"])) == pname:
+                        out.add(l_["name"])
+            return out
+        # the object under construction: a local whose fields are mutated here or handed as &mut to helpers
+        writes = {}     # (obj, field) -> first order
+        reads = []      # (order, obj, field, node)
+        for x in hirq.walk(body):
+            if x.get("k") == "mcall":
+                r_ = hirq.strip(x["recv"])
+                if r_.get("k") == "field" and hirq.strip(r_["e"]).get("k") == "path" and "local" in hirq.strip(r_["e"])["res"]:
+                    key = (hirq.strip(r_["e"])["res"]["local"], r_["name"])
+                    if x["m"] in MUTM:
+                        writes.setdefault(key, order[id(x)])
+                    elif x["m"] in READM:
+                        reads.append((order[id(x)], key, x))
+            if x.get("k") == "assign":
+                l_ = hirq.strip(x["l"])
+                if l_.get("k") == "field" and hirq.strip(l_["e"]).get("k") == "path" and "local" in hirq.strip(l_["e"])["res"]:
+                    writes.setdefault((hirq.strip(l_["e"])["res"]["local"], l_["name"]), order[id(x)])
+            if x.get("k") in ("call", "mcall") and x.get("fn") in local_fns:
+                g = local_fns[x["fn"]]
+                pn = [b for p_ in g.hir["params"] for b in hirq.pat_binds(p_)]
+                args = ([x["recv"]] if x.get("k") == "mcall" else []) + list(x.get("args") or [])
+                for nm_, a_ in zip(pn, args):
+                    if a_.get("k") == "ref" and a_.get("mut") and hirq.strip(a_["e"]).get("k") == "path" and "local" in hirq.strip(a_["e"])["res"]:
+                        for fld in helper_mutated(g, nm_):
+                            writes.setdefault((hirq.strip(a_["e"])["res"]["local"], fld), order[id(x)])
+        n_r = 0
+        for o_, key, node in reads:
+            if key not in writes:
+                continue
+            n_r += 1
+            if o_ < writes[key]:
+                ctx.bad(R_pop, "%s|%s.%s|read-before-fill" % (fname.split("::")[-1], key[0], key[1]), "%s:%d" % (f.file, node["ln"]), "`%s` is consulted at line %d, before anything has put data into %s.%s" % (hirq.render(node)[:50], node["ln"], key[0], key[1]),
+                        "the collection is always empty at that point: the decision taken on it (e.g. the detected format version) is the same for every input, and everything derived from it — what a second write emits, what a conversion keeps — is wrong")
+            else:
+                ctx.ok(R_pop, {"fn": fname, "field": "%s.%s" % key, "read_line": node["ln"]})
+        if n_r == 0:
+            ctx.ok(R_pop, {"fn": fname, "reads_of_filled_collections": 0, "filled_fields": sorted("%s.%s" % k_ for k_ in writes)[:8]})
+
     for crate in (wdt, wdl):
         by_owner = owners(crate)
         for owner, fs in sorted(by_owner.items()):
@@ -264,6 +327,47 @@ def run(ctx):
         else:
             ctx.bad(R_snap, "coords|truncates-grid-line|axis%d" % i_, w2t.where, "tile index = trunc(%s) while tile_to_world returns the boundary point %s" % (fb[:90], fa[:60]),
                     "for a boundary point the f32 quotient can come out just below the integer (3.9999998 for tile 4): tile -> world -> tile returns the previous tile (960 of the 4096 tiles on the pinned tree)")
+    # the snapping tolerance dominates the accumulated f32 rounding error of the two formulas over the index range, and stays
+    # far below half a tile.  Error bound (standard model, unit round-off u = 2^-24): q = (O - fl(O - fl(t·S)))/S, O = 32·S
+    #   |q - t| <= (|t·S|·u + |O - t·S|·u + |t·S|·u)/S + |t|·u <= (3t + 32)·u ,  t <= 63  =>  221·2^-24 ≈ 1.32e-5
+    R_tol = ctx.rule("C18.snap-tolerance-covers-rounding-error", "the tolerance used to snap grid-line quotients is >= (3·63+32)·2^-24 (the worst-case f32 error of the inverse at the highest tile index) and < 0.25", floor=1)
+    tol = None
+    for x in hirq.walk(w2t.hir["body"]):
+        pass
+    tol_consts = []
+    for fn_ in [w2t] + [local_fns[c_["fn"]] for c_ in hirq.calls(w2t.hir["body"]) if c_.get("fn") in local_fns]:
+        for n_ in hirq.find(fn_.hir["body"], "bin"):
+            if n_["op"] in ("<", "<=", ">", ">=") and "abs" in hirq.render(n_):
+                for side in (n_["l"], n_["r"]):
+                    sd = hirq.strip(side)
+                    val = None
+                    if sd.get("k") == "path" and "def" in sd["res"]:
+                        cv = allc.get(sd["res"]["def"], {}).get("v")
+                        rep = cv.get("repr") if isinstance(cv, dict) else None
+                        if rep:
+                            try:
+                                val = float(re.sub(r"f(32|64)$", "", rep))
+                            except ValueError:
+                                val = None
+                    elif sd.get("k") == "lit" and "float" in sd["v"]:
+                        try:
+                            val = float(re.sub(r"_?f(32|64)$", "", sd["v"]["float"]))
+                        except ValueError:
+                            val = None
+                    if val is not None:
+                        tol_consts.append((val, hirq.render(n_)[:70], n_["ln"], fn_))
+    need = (3 * 63 + 32) * 2.0 ** -24
+    if not tol_consts:
+        if any("call:round(" in symx.render(x_) for x_ in (rb[2], rb[3])):
+            ctx.note_unarmed(R_tol, "world_to_tile", "a snap is present but its tolerance is not a compile-time constant")
+        else:
+            ctx.ok(R_tol, {"snap": "none (covered by C18.inverse-snaps-grid-lines)"})
+    for val, txt, ln, fn_ in tol_consts:
+        if need <= val < 0.25:
+            ctx.ok(R_tol, {"tolerance": val, "required_min": need, "comparison": txt})
+        else:
+            ctx.bad(R_tol, "coords|snap-tolerance", "%s:%d" % (fn_.file, ln), "tolerance %.3g in `%s`; the inverse's worst-case rounding error at tile 63 is %.3g" % (val, txt, need),
+                    "the absolute error of (OFFSET − w)/SIZE grows with the tile index: with a tolerance below it the high tiles (31, 62…) are not snapped and tile → world → tile returns the previous tile" if val < need else "a tolerance this wide moves interior points into the neighbouring tile")
     # the shape: world = OFFSET - tile*SIZE ; tile = (OFFSET - world)/SIZE
     sh_a = all(re.match(r"^sub\(", symx.render(x)) and "mul(" in symx.render(x) for x in (ra[2], ra[3]))
     sh_b = all("div(sub(" in symx.render(x) for x in (rb[2], rb[3]))
